@@ -59,13 +59,24 @@ def compare_with_reference(meta, ref_blocks, blocks):
     has come out differently the handle numbers of the case no longer mean the same objects, so
     the comparison stops there."""
     ref = op_results(ref_blocks); got = op_results(blocks)
-    for (rw, rd, rl), (gw, gd, gl) in zip(ref, got):
+    # calls of the faulted kind made by each op of the failure-free run (to say where inside the differing op the fault fell)
+    fk = (meta.get("fault") or "").split(); kind = fk[1] if len(fk) > 2 else None
+    try: kglob = int(fk[2])
+    except Exception: kglob = None
+    per_op = []
+    for b in ref_blocks:
+        w = b[0].split(" ", 1)[0]
+        if w in C.OPWORDS and w != "end":
+            m = F._calls_re.search(b[0])
+            per_op.append(dict(zip(F.KINDS, map(int, m.groups()[:5]))).get(kind, 0) if (m and kind) else 0)
+    for i, ((rw, rd, rl), (gw, gd, gl)) in enumerate(zip(ref, got)):
         if rl == gl: continue
         failed = (gd.get("st") not in (None, "0")) or ("NULL" in gl[0] and gw in ("open", "fastopen", "new")) or gl[0].endswith(("bad-handle", "dead-handle", "bad-index"))
         if gw == "search":      # search() has no status of its own: last_error() is what it reports
             failed = gd.get("err") not in (None, "0")
         if not failed:
-            return [Finding("violation", f"{meta['family']} {meta['fault']}: {gw} reports success but its result differs from the failure-free run: got '{gl[0][:150]}' ({len(gl)} lines) vs '{rl[0][:150]}' ({len(rl)} lines)")]
+            rel = (kglob - sum(per_op[:i])) if (kglob is not None and i < len(per_op)) else None
+            return [Finding("violation", f"{meta['family']} {meta['fault']} [call #{rel} of that kind inside this {gw}]: {gw} reports success but its result differs from the failure-free run: got '{gl[0][:150]}' ({len(gl)} lines) vs '{rl[0][:150]}' ({len(rl)} lines)")]
         if gw in ("open", "fastopen", "search", "new", "append", "prepend"):
             break
     return []
@@ -162,6 +173,10 @@ def custom_run(ctx, res, cw):
 def classify(ctx, meta, finding):
     t = finding.text
     if "fastfind" in t and "last_error() = 0" in t and "reported 2" in t: return "D6"
-    if "search reports success" in t and ("fault read" in t or "fault seek" in t): return "D13rs"
+    if "search reports success" in t and ("fault read" in t or "fault seek" in t):
+        # the finding is about failures while a *candidate* is parsed; the two seeks of mspack_sys_filelen() come first
+        m = re.search(r"\[call #(-?\d+) of that kind inside this search\]", t)
+        if "fault seek" in t and m and int(m.group(1)) <= 2: return None
+        return "D13rs"
     if "open reports success" in t and "fault read" in t and meta.get("salvage"): return "D22r"
     return None
